@@ -1,4 +1,5 @@
 import MtailVerif.Proofs.ScopeUnused
+import MtailVerif.Proofs.Skeletons
 /-! # C24 — invalid programs are rejected with a positioned error
 
     `Scope.check` (Model/Scope.lean) mirrors the checker's symbol handling; regular-expression
@@ -238,5 +239,16 @@ example : declaresInBlock "inner" (.stmts (.cons (.cond (.un .match (.patexpr (.
 example : check cfg0 (.stmts (.cons (.decodecl "d" (.stmts (.cons (.cond (.un .match (.patexpr (.patlit [120] p0) []) p0 .unk)
     (.stmts (.cons (.next ⟨1, 2, 5⟩) .nil)) .nil) .nil)) p0)
     (.cons (.deco "d" (.stmts (.cons (.cap "0" false p0 .unk) .nil)) p0) .nil))) = [] := by decide
+
+/-! ### regenerated control skeletons (written by lib/wire_skeletons.py) -/
+/-- Obligations over regenerated facts: the functions this property's model stands for have the
+    control skeleton the model was written against (`Proofs/Skeletons.lean`, one `rfl` per function
+    or clause; DESIGN.md §11.6a) -/
+theorem symbols_skeletons : Skeletons.SymbolsShape := Skeletons.symbols_shape
+theorem checkerBefore_skeletons : Skeletons.CheckerBeforeShape := Skeletons.checkerBefore_shape
+theorem checkerAfter_skeletons : Skeletons.CheckerAfterShape := Skeletons.checkerAfter_shape
+theorem patternEval_skeletons : Skeletons.PatternEvalShape := Skeletons.patternEval_shape
+theorem optBefore_skeletons : Skeletons.OptBeforeShape := Skeletons.optBefore_shape
+theorem optAfter_skeletons : Skeletons.OptAfterShape := Skeletons.optAfter_shape
 
 end MtailVerif.C24
